@@ -250,7 +250,7 @@ func ruleC16(c *Ctx, r *Report) {
 			appended := false
 			res0 := extractOf(pc, 0)
 			allInstrs(a.download, func(i ssa.Instruction) {
-				if ac, ok := i.(*ssa.Call); ok && calleeKey(&ac.Call) == "builtin append" && isAccumulatorPhi(ac.Call.Args[0], l.Loop.Header) {
+				if ac, ok := i.(*ssa.Call); ok && calleeKey(&ac.Call) == "builtin append" && isAccumulator(ac.Call.Args[0], l.Loop.Header, l.Loop.Region()) {
 					for _, v := range varargValues(ac.Call.Args[1]) {
 						if res0 != nil && v == ssa.Value(res0) {
 							appended = true
@@ -433,7 +433,7 @@ func hostExtractionShape(fn *ssa.Function) (bool, string) {
 	}
 	var app *ssa.Call
 	allInstrs(fn, func(i ssa.Instruction) {
-		if ac, ok := i.(*ssa.Call); ok && calleeKey(&ac.Call) == "builtin append" && isAccumulatorPhi(ac.Call.Args[0], l.Loop.Header) {
+		if ac, ok := i.(*ssa.Call); ok && calleeKey(&ac.Call) == "builtin append" && isAccumulator(ac.Call.Args[0], l.Loop.Header, l.Loop.Region()) {
 			app = ac
 		}
 	})
